@@ -1,6 +1,64 @@
-From LD Require Import Base F32 Data Model Ops Bucket Eval EvalFacts.
-(* first obligation; the full statements of DESIGN.md section 6 are added as they are proved *)
-Theorem C20_invalid_ctx_untouched : forall re_ok re_match o E P f,
-  run re_ok re_match o E P CInvalid f = Done (mkoutcome (err_detail KUserNotSpecified) false []).
-Proof. exact run_invalid. Qed.
-Print Assumptions C20_invalid_ctx_untouched.
+(* C20 Locality: results depend only on referenced data *)
+From LD Require Import Base F32 Data Model Ops Bucket Eval EvalFacts Pure Order Locality.
+From Coq Require Import Permutation.
+
+(* flag metadata (version, deleted, client-side availability, debug date, sampling, migration, track-events,
+   summary exclusion) is never read when the flag is evaluated *)
+Theorem C20_metadata : forall re_ok re_match o E P c fuel chain f m e,
+  p_eval re_ok re_match o E P c fuel chain (with_meta f m e) = p_eval re_ok re_match o E P c fuel chain f.
+Proof. exact metadata_irrelevant. Qed.
+Print Assumptions C20_metadata.
+
+(* an added context attribute is invisible to every clause that addresses another attribute ... *)
+Theorem C20_extra_attribute_clause : forall re_ok re_match cl c n v,
+  str_eqb (ref_component (cl_attr cl) 0) n = false ->
+  clause_match_noseg re_ok re_match cl (add_attr_ctx c n v) = clause_match_noseg re_ok re_match cl c.
+Proof. exact clause_ignores_unreferenced_attribute. Qed.
+Print Assumptions C20_extra_attribute_clause.
+
+(* ... to every rollout / experiment / weighted segment rule that buckets by another attribute or by key ... *)
+Theorem C20_extra_attribute_bucket : forall sec c isexp seed kind key attr salt n v,
+  str_eqb (ref_component attr 0) n = false -> str_eqb (s "key") n = false ->
+  compute_bucket sec (add_attr_ctx c n v) isexp seed kind key attr salt = compute_bucket sec c isexp seed kind key attr salt.
+Proof. exact bucket_ignores_unreferenced_attribute. Qed.
+Print Assumptions C20_extra_attribute_bucket.
+
+(* ... and to every target list *)
+Theorem C20_extra_attribute_target : forall c n v t, target_match (add_attr_ctx c n v) t = target_match c t.
+Proof. exact target_ignores_attributes. Qed.
+Print Assumptions C20_extra_attribute_target.
+
+Theorem C20_permute_clause_values : forall re_ok re_match c vals' x,
+  cl_pre c = cpre_none -> Permutation (cl_values c) vals' ->
+  clause_match_noseg re_ok re_match (with_values c vals') x = clause_match_noseg re_ok re_match c x.
+Proof. exact clause_values_order_irrelevant. Qed.
+Print Assumptions C20_permute_clause_values.
+
+Theorem C20_permute_target_keys : forall c t vals',
+  t_pre t = None -> Permutation (t_values t) vals' ->
+  target_match c (mktarget (t_kind t) vals' (t_var t) None) = target_match c t.
+Proof. exact target_keys_order_irrelevant. Qed.
+Print Assumptions C20_permute_target_keys.
+
+(* well-formed clauses (none of them fails) may be reordered inside a rule *)
+Theorem C20_permute_clauses : forall (cm : clause -> res (er bool)) cls cls',
+  (forall cl, In cl cls -> exists b, cm cl = Done (Ok b)) -> Permutation cls cls' ->
+  p_all_clauses cm cls' = p_all_clauses cm cls.
+Proof. exact clause_order_irrelevant. Qed.
+Print Assumptions C20_permute_clauses.
+
+(* rules appended after the deciding one change nothing *)
+Theorem C20_append_rules : forall re_ok re_match o E c segc f rs extra r,
+  (exists pre x post, indexed 0 rs = pre ++ x :: post /\
+      Forall (fun y => rule_step re_ok re_match o E c segc f y = Done None) pre /\
+      rule_step re_ok re_match o E c segc f x = Done (Some r)) ->
+  p_rules re_ok re_match o E c segc f (rs ++ extra) 0 = p_rules re_ok re_match o E c segc f rs 0.
+Proof. exact appended_rules_irrelevant. Qed.
+Print Assumptions C20_append_rules.
+
+(* a never-matching rule inserted before the rules changes only the reported rule index *)
+Theorem C20_insert_dead_rule : forall re_ok re_match o E c segc f dead rs,
+  p_all_clauses (p_clause re_ok re_match E c segc) (ru_clauses dead) = Done (Ok false) ->
+  p_rules re_ok re_match o E c segc f (dead :: rs) 0 = shift_result (p_rules re_ok re_match o E c segc f rs 0).
+Proof. exact dead_rule_only_shifts_index. Qed.
+Print Assumptions C20_insert_dead_rule.
